@@ -90,8 +90,9 @@ pub assume_specification<'a, K, V, S, A, Q>[HashMap::<K, V, S, A>::get_mut](m: &
                 && vstd::std_specs::hash::maps_borrowed_key_to_value(old(m)@, k, *v)
                 && final(m)@.dom() == old(m)@.dom()
                 && vstd::std_specs::hash::maps_borrowed_key_to_value(final(m)@, k, *final(v))
-                && (forall|k2: K| #[trigger] old(m)@.contains_key(k2) && !vstd::std_specs::hash::maps_borrowed_key_to_value(final(m)@, k, final(m)@[k2])
-                        ==> final(m)@[k2] == old(m)@[k2]),
+                // every other entry is untouched: dropping the borrowed key from the old and from the new map gives the same map
+                && (forall|m2: Map<K, V>| #[trigger] vstd::std_specs::hash::borrowed_key_removed(old(m)@, m2, k)
+                        ==> vstd::std_specs::hash::borrowed_key_removed(final(m)@, m2, k)),
             None => !vstd::std_specs::hash::contains_borrowed_key(old(m)@, k) && final(m)@ == old(m)@,
         };
 } // mod std_maps_shim
